@@ -4,6 +4,9 @@ Only property statements live here; proofs are references to Lemmas.lean.
 The regex engine is a parameter (`eng`); no hypothesis on it is needed for the string clauses.
 -/
 import Verif.C13.Lemmas
+import Verif.C13.LoaderLemmas
+import Verif.C13.LoaderRoundtrip
+import Verif.C13.MaskLemmas
 
 namespace Verif.C13
 
@@ -77,6 +80,58 @@ theorem include_inline (a f b : List Line) :
     flattenLines (a ++ [Line.incl f] ++ b) = flattenLines a ++ flattenLines f ++ flattenLines b :=
   L.flatten_include a f b
 
+/-! ### the same clause for the loader itself (line-level model of `_parse_repp_module`, Loader.lean) -/
+
+/-- "including files in place": loading a module whose text contains the line `<f` gives exactly
+what loading the text with f's lines spliced in at that place gives — the same module (and table of
+external modules) or the same error; at every nesting depth: `pre` may have opened any number of
+`#n` groups, `fl` may itself contain includes, and the statement holds in any parser state
+(`include_inline_state`), so also inside included files and external module files. -/
+theorem include_inline_text (env : Loader.Env) (f : Str) (fl : List Str) (hd : env.hasDir = true)
+    (hf : env.files (Loader.rstrip f) = some fl) (pre post : List Str)
+    (r : Except Loader.LErr (Loader.Module × List (Str × Loader.Module))) (hr : r ≠ .error .fuel) :
+    (∃ k, Loader.loadLines env k (pre ++ ('<' :: f) :: post) = r)
+      ↔ (∃ k, Loader.loadLines env k (pre ++ fl ++ post) = r) :=
+  Loader.L.include_inline_text env f fl hd hf pre post r hr
+
+theorem include_inline_state (env : Loader.Env) (f : Str) (fl : List Str) (hd : env.hasDir = true)
+    (hf : env.files (Loader.rstrip f) = some fl) (st : Loader.PState) (pre post : List Str)
+    (r : Except Loader.LErr Loader.PState) (hr : r ≠ .error .fuel) :
+    (∃ k, Loader.parse env k st (pre ++ ('<' :: f) :: post) = r)
+      ↔ (∃ k, Loader.parse env k st (pre ++ fl ++ post) = r) :=
+  Loader.L.parse_include env f fl hd hf st pre post r hr
+
+/-- the loader's fuel only bounds the computation (it runs out exactly on include / module cycles,
+where the real loader does not terminate). -/
+theorem loader_fuel_irrelevant (env : Loader.Env) (k k' : Nat) (lines : List Str)
+    (r : Except Loader.LErr (Loader.Module × List (Str × Loader.Module)))
+    (h : Loader.loadLines env k lines = r) (hr : r ≠ .error .fuel) (hk : k ≤ k') :
+    Loader.loadLines env k' lines = r := Loader.L.loadLines_mono env k k' lines r h hr hk
+
+/-- Loading the rendered text of an operation tree gives that tree back: operations in order (group
+calls by name), the table of group definitions (module-global names, use before definition, nested
+definitions), the `:` and `@` declarations — for every tree whose strings survive the line syntax
+(`wfNodes`), whose group names are distinct and whose calls are all defined somewhere in the module. -/
+theorem load_roundtrip (env : Loader.Env) (info tok : Option Str) (nodes : List Loader.Node)
+    (hwf : Loader.wfNodes env.pre nodes = true)
+    (hnd : ((Loader.defsOfNodes nodes).map (·.1)).Nodup)
+    (hcalls : ∀ n ∈ Loader.callsOfNodes nodes, n ∈ (Loader.defsOfNodes nodes).map (·.1))
+    (hinfo : ∀ s, info = some s → Loader.rstrip s = s) (htok : ∀ s, tok = some s → Loader.rstrip s = s) :
+    ∃ k0, ∀ k, k0 ≤ k →
+      Loader.loadLines env k (Loader.renderModule info tok nodes)
+        = .ok (⟨Loader.opsOfNodes nodes, Loader.defsOfNodes nodes, tok, info⟩, []) :=
+  Loader.L.load_roundtrip env info tok nodes hwf hnd hcalls hinfo htok
+
+/-- issue-308 instances: use before definition, and a nested definition called from the top level. -/
+example : ∃ k, Loader.loadLines ⟨fun _ => none, false, []⟩ k [">1".toList, "#1".toList, "!a\tb".toList, "#".toList]
+    = .ok (⟨[.call "1".toList], [("1".toList, [.rule ['a'] ['b']])], none, none⟩, []) := ⟨10, by rfl⟩
+example : ∃ k, Loader.loadLines ⟨fun _ => none, false, []⟩ k
+      ["#1".toList, "#2".toList, "!b\tc".toList, "#".toList, "#".toList, ">2".toList]
+    = .ok (⟨[.call "2".toList], [("2".toList, [.rule ['b'] ['c']]), ("1".toList, [])], none, none⟩, []) := ⟨10, by rfl⟩
+/-- a closing `#` without an open group is the IndexError of the real loader; a `:` line inside a group is a REPPError. -/
+example : Loader.loadLines ⟨fun _ => none, false, []⟩ 10 ["#".toList] = .error .indexError := by rfl
+example : Loader.loadLines ⟨fun _ => none, false, []⟩ 10 ["#1".toList, ":x".toList] = .error .reppError := by rfl
+
 /-! ## "The trace is a chain in which each step's input is the previous step's output and whose
 last element equals the result of apply"
 
@@ -116,6 +171,53 @@ theorem mask_alone_identity (eng : Eng) (f : Nat) (ops : List Op) (s : Str) (st 
     (hm : ∀ op ∈ ops, ∃ id, op = Op.mask id) (h : groupApply eng f ops s = some st) :
     lastOut st s = s ∧ ∀ x ∈ st, x.out = s ∧ x.sm = zeromap s ∧ x.em = zeromap s :=
   L.masks_only eng f ops s st hm h
+
+/-! ## programs WITH masks (outside the property's "module without masks"; Mask.lean models
+`_REPPMask._apply`, the blocking tests of `_process_match` and `_check_mask`)
+
+`(blockedM s m mk tr un).1 = false` is the explicit "not blocked" predicate. -/
+
+/-- Under any mask the string is the substitution of exactly the matches that are not blocked … -/
+theorem applyRuleM_string (s : Str) (ms : List M) (mk : MaskA) (tr un : List Seg) :
+    (applyRuleM s ms mk tr un).res.out = subst s (tr ++ un) (liveMatches s ms mk tr un) 0 :=
+  L.applyRuleM_string s ms mk tr un
+
+/-- … so when no match is blocked, string and maps are those of the mask-free rule (and all of
+`applyRule_string`, `provenance_rule` apply) … -/
+theorem applyRuleM_not_blocked (s : Str) (ms : List M) (mk : MaskA) (tr un : List Seg)
+    (h : ∀ m ∈ ms, (blockedM s m mk tr un).1 = false) :
+    (applyRuleM s ms mk tr un).res = applyRule s ms tr un ∧
+    (applyRuleM s ms mk tr un).res.out = subst s (tr ++ un) ms 0 := by
+  have h1 := L.applyRuleM_not_blocked s ms mk tr un h
+  exact ⟨h1, by rw [h1]; exact L.applyRule_string s ms tr un⟩
+
+/-- … a blocked match is left alone: the step is the mask-free rule on the remaining matches (a
+blocked match then lies outside all matches, where `provenance_rule` attributes every character to
+itself), and the remaining match list is still a valid one … -/
+theorem blocked_match_left_alone (s : Str) (ms : List M) (mk : MaskA) (tr un : List Seg)
+    (hv : ValidMatches s ms) (h : liveMatches s ms mk tr un ≠ []) :
+    (applyRuleM s ms mk tr un).res = applyRule s (liveMatches s ms mk tr un) tr un ∧
+    ValidMatches s (liveMatches s ms mk tr un) :=
+  ⟨L.applyRuleM_live s ms mk tr un h, L.liveMatches_valid s ms mk tr un hv⟩
+
+/-- … and when every match is blocked the string is unchanged, the step is not applied (so nothing
+is merged into the result maps) and its maps are zero. -/
+theorem all_blocked_identity (s : Str) (ms : List M) (mk : MaskA) (tr un : List Seg) (hne : ms ≠ [])
+    (h : ∀ m ∈ ms, (blockedM s m mk tr un).1 = true) :
+    (applyRuleM s ms mk tr un).res.out = s ∧ (applyRuleM s ms mk tr un).res.applied = false ∧
+    (applyRuleM s ms mk tr un).res.sm = zeromap s ∧
+    (applyRuleM s ms mk tr un).res.em = List.replicate (s.length + 1) 0 ++ [-1] :=
+  L.applyRuleM_all_blocked s ms mk tr un hne h
+
+/-- under an all-zero mask nothing is ever blocked. -/
+theorem zero_mask_never_blocks (s : Str) (m : M) (mk : MaskA) (tr un : List Seg) (h : L.AllZero mk) :
+    (blockedM s m mk tr un).1 = false := (L.blockedM_allZero s m mk tr un h).1
+
+/-- the mask-threading semantics restricted to programs without mask rules IS the mask-free
+semantics all other theorems are about. -/
+theorem maskfree_program (eng meng : Eng) (f : Nat) (ops : List Op) (s : Str) (hf : opsMaskFree ops = true) :
+    (traceStepsM eng meng f ops s).map (fun p => (p.1.map (·.step), p.2)) = traceSteps eng f ops s :=
+  L.traceStepsM_maskFree eng meng f ops s hf
 
 /-! ## hypotheses are satisfiable / concrete instances (past failures as regression) -/
 
